@@ -61,6 +61,8 @@ def c02 (op : String) (args : List String) (impl : String) : Verdict :=
       let model := if impl == "ok parse=ok" then "ok parse=ok" else "ok parse=err"
       mk impl model [("returns_without_panic_or_hang", impl.startsWith "ok")]
     | _, _ => bad "datagram-args"
+  | "tpraw", [_, _, _] =>
+    mk impl "ok" [("returns_without_panic_or_hang", impl.startsWith "ok")]
   | "getter", [desc, attrs, sh, ah] =>
     match parseDesc desc, parseAttrList attrs, unhex sh, unhex ah with
     | some d, some as, some s, some a =>
